@@ -9,7 +9,7 @@ class FTPScript(object):
 
     replies: dict command name -> list of reply byte strings to use in order (last one repeats).
     data:    list of payload pieces fed on the data connection.
-    ending:  'eof_first' | 'reply_first' | 'missing_final' | 'error_final' | 'no_eof'
+    ending:  'eof_first' | 'reply_first' | 'missing_final' | 'error_final' (reply: error_final_reply) | 'no_eof'
     segmentation: callable(bytes) -> list of pieces, applied to every control reply.
     '''
     def __init__(self, data_ip='127.0.3.9', data_port=40001):
@@ -116,7 +116,7 @@ class ControlPeer(netsim.Peer):
                 await conn.feed_pieces(s.segment(s.final))
             elif s.ending == 'error_final':
                 self.events.append('error-reply-fed')
-                await conn.feed_pieces(s.segment(b'451 aborted\r\n'))
+                await conn.feed_pieces(s.segment(getattr(s, 'error_final_reply', None) or b'451 aborted\r\n'))
             elif s.ending == 'missing_final':
                 conn.feed_eof()
                 self.events.append('control-eof')
